@@ -440,8 +440,9 @@ def ggufLayersLoop (bs : Bytes) (budget : Option Nat) (g : Guards) (maxSeek : Na
         | .error e => some (.error e)
         | .ok media =>
         let whole : Bool := n = bs.length ∧ offset = 0
-        -- otherwise NewLayer(io.NewSectionReader(blob, offset, n)): n bytes from offset, cut at the end of the file
-        let size := if whole then bs.length else min n (bs.length - offset)
+        -- otherwise NewLayer(io.NewSectionReader(blob, offset, n - offset)): the bytes of this model, cut at the end of
+        -- the file (upstream passed n, i.e. the model followed by part of the next ones: finding C05 F1b, repaired)
+        let size := if whole then bs.length else min (n - offset) (bs.length - offset)
         ggufLayersLoop bs budget g maxSeek fuel n (acc ++ [⟨offset, size, whole, media, d⟩])
     else some (.ok acc)
 
